@@ -9,7 +9,8 @@
 (* the concrete numbers of every case (BigNat arithmetic below), writes the *)
 (* cases as ndjson (IOEnv.CP_OUT) for the harness, and model-checks the      *)
 (* life cycle of every case on the code-shaped model: one behaviour          *)
-(* stub -> ready -> opened -> chained -> done per case; invariant C05.       *)
+(* stub -> ready -> opened -> chained [-> pending -> chained2] -> done per   *)
+(* case; invariant C05.                                                      *)
 (* A violation here is a HYPOTHESIS about the code (the model is code-       *)
 (* shaped), it becomes a finding only when ImplCommitPolicy reproduces it on *)
 (* the recorded behaviour of the real crates.                               *)
@@ -246,6 +247,8 @@ FamExtreme(X) ==
 (***************************************************************************)
 (* Finish: resolve the draft to concrete numbers; {} when it cannot exist.  *)
 (***************************************************************************)
+NoSeq == [on |-> FALSE, req1 |-> [feerate |-> Z, to_b |-> Z, to_c |-> Z, off |-> << >>, rcv |-> << >>],
+          chain2 |-> [h0 |-> 0, blocks |-> 0, fund_at |-> 0, close_at |-> 0]]
 ReqOf(side, feerate, hv, cv, offh, rcvh) ==
   IF side = "holder"
     THEN [feerate |-> feerate, to_b |-> hv, to_c |-> cv, off |-> offh, rcv |-> rcvh]
@@ -294,7 +297,7 @@ Finish(X, D, fam, why) ==
                 /\ \A i \in 1..Len(rcvh) : FitsU64(rcvh[i].v) /\ FitsU32(rcvh[i].cltv)
   IN IF ~feasible \/ ~fits \/ (IsAbs(D.hv) /\ IsAbs(D.cv)) THEN {}
      ELSE {[id |-> 0, fam |-> fam, why |-> why, kind |-> "commit", pol |-> X.pol, setup |-> SetupOf(X, value),
-            chain |-> X.chain, side |-> X.side, n |-> X.n, pre |-> PreOf(X, value),
+            chain |-> X.chain, side |-> X.side, n |-> X.n, pre |-> PreOf(X, value), seq |-> NoSeq,
             req |-> ReqOf(X.side, D.feerate, hv, cv, offh, rcvh)]}
 
 CasesOf(X, fam, patches) == UNION {Finish(X, Apply(BaseD(X), p), fam, p.why) : p \in patches}
@@ -350,7 +353,33 @@ ManyCases == UNION {CasesOf(X, "many", {Shape(X, s[1], s[2], 1000)
                       : s \in {<<483, 0>>, <<0, 483>>, <<484, 0>>, <<0, 484>>, <<241, 242>>, <<242, 242>>, <<256, 0>>, <<0, 257>>}})
                     : X \in ManyCtx}
 
-Cases0 == StdCases \cup InitCases \cup SizeCases \cup ChainCases \cup ExtCases \cup ManyCases
+\* a commitment is PENDING (validated / signed, nothing revoked) while the chain changes, then the
+\* same number is presented again: identical, different but valid, different and invalid.
+\* Numbers: 1 = the next one (pending after request1), 2 = look-ahead (holder only), 0 = retry of
+\* the current (initial) commitment.  Chain before: funding buried; after: unchanged, a spend of
+\* the funding seen in a new block, the funding reorganised out (all blocks / replaced blocks).
+SeqChain1 == ChainOK
+SeqChains2 == { [h0 |-> 0, blocks |-> b[1], fund_at |-> b[2], close_at |-> b[3]]
+                  : b \in {<<3, 1, 0>>, <<4, 1, 4>>, <<0, 0, 0>>, <<3, 0, 0>>} }
+SeqBase(X) == IF X.n = 0 THEN BaseD(X) ELSE BaseD([X EXCEPT !.n = 1])
+SeqVariants(X) ==
+  IF X.n = 0
+    THEN {NoPatch, Main("cv", PUSH(-7)), Main("cv", AI(CHAN_DUST - 1))}
+    ELSE {NoPatch, Main("cv", AI(210000)), Main("cv", AI(CHAN_DUST - 1)),
+          Patch1("rcvh=other", "rcvh", << HT(AI(31000), CR(RelOK(X.pol))) >>)}
+SeqCasesOf(X) ==
+  UNION { UNION { { [c2 EXCEPT !.kind = "seq", !.seq = [on |-> TRUE, req1 |-> c1.req, chain2 |-> ch2]]
+                    : c2 \in Finish(X, Apply(SeqBase(X), p), "seq",
+                                    "n=" \o ToString(X.n) \o "," \o ToString(ch2.blocks) \o "/" \o ToString(ch2.fund_at)
+                                      \o "/" \o ToString(ch2.close_at) \o "," \o p.why) }
+                  : c1 \in Finish(X, SeqBase(X), "seq", "first") }
+          : p \in SeqVariants(X), ch2 \in SeqChains2 }
+SeqCtx == {Ctx(pol, ct, TRUE, PUSH0, V0, SeqChain1, side, n)
+             : pol \in {BasePol, PolOn} \cup (IF Thorough THEN {PolOnUse, PolUse} ELSE {}),
+               ct \in (IF Thorough THEN CTypes ELSE {"static"}), side \in Sides, n \in {0, 1, 2}}
+SeqCases == UNION {SeqCasesOf(X) : X \in {Y \in SeqCtx : ~(Y.side = "cp" /\ Y.n = 2)}}
+
+Cases0 == StdCases \cup InitCases \cup SizeCases \cup ChainCases \cup ExtCases \cup ManyCases \cup SeqCases
 
 (***************************************************************************)
 (* Filters: for one representative of every class (set of broken rules,     *)
@@ -371,10 +400,11 @@ FiltersAround(tags) ==
   \cup {SetToSeq({W(t) : t \in tags})}
 
 CaseBroken(c) == IF c.kind = "setup" THEN ViolatedSetup(c.pol, c.setup)
-                 ELSE ViolatedCommit(c.pol, c.setup, c.chain, c.side, c.n, c.req)
+                 ELSE ViolatedCommit(c.pol, c.setup, IF c.kind = "seq" THEN c.seq.chain2 ELSE c.chain,
+                                     c.side, c.n, c.req, TRUE)
 ClassOf(c) == <<CaseBroken(c), c.side, c.n>>
 \* <<case, the rules it breaks>> for the candidates, computed once
-RepPool == TLCEval({<<c, CaseBroken(c)>> : c \in {d \in Cases0 : d.pol.filter = Strict /\ d.setup.ctype = "static"
+RepPool == TLCEval({<<c, CaseBroken(c)>> : c \in {d \in Cases0 : d.kind = "commit" /\ d.pol.filter = Strict /\ d.setup.ctype = "static"
                                   /\ d.setup.outbound /\ d.pol \in {BasePol, PolOn, PolUse, PolOnUse}}})
 Reps == LET pool    == {p \in RepPool : p[2] # {}}
             classes == {<<p[2], p[1].side, p[1].n>> : p \in pool} IN
@@ -400,7 +430,7 @@ SetupCasesOf(pol) ==
     setup |-> [ctype |-> s[1], outbound |-> ob, value |-> V0, push_msat |-> PUSH0, hdelay |-> s[2], cdelay |-> s[3]],
     chain |-> [h0 |-> 0, blocks |-> 0, fund_at |-> 0, close_at |-> 0], side |-> "holder", n |-> 0,
     pre |-> PreOf(Ctx(pol, "static", ob, PUSH0, V0, ChainOK, "holder", 0), V0),
-    req |-> ReqOf("holder", Z, Z, Z, << >>, << >>)]
+    seq |-> NoSeq, req |-> ReqOf("holder", Z, Z, Z, << >>, << >>)]
      : s \in SetupShapes(pol), f \in SetupFilters, ob \in (IF Thorough THEN BOOLEAN ELSE {TRUE})}
 SetupCases == UNION {SetupCasesOf(pol) : pol \in {BasePol} \cup (IF Thorough THEN {PolTight, PolOn} ELSE {})}
 
